@@ -512,15 +512,18 @@ func defaultRedirectTrailingSlashHandler(c Context) {
 		code = http.StatusPermanentRedirect
 	}
 
-	var url string
-	if len(req.URL.RawPath) > 0 {
-		url = FixTrailingSlash(req.URL.RawPath)
-	} else {
-		url = FixTrailingSlash(req.URL.Path)
-	}
+	// Use the escaped form of the path, so reserved characters in the last segment (e.g. '?', '#' or '%') are not
+	// interpreted as a query, a fragment or an escape sequence in the Location header.
+	url := FixTrailingSlash(req.URL.EscapedPath())
 
 	if url[len(url)-1] == '/' {
-		localRedirect(c.Writer(), req, path.Base(url)+"/", code)
+		base := path.Base(url)
+		if strings.IndexByte(base, ':') >= 0 {
+			// The first segment of a relative-path reference cannot contain a colon (RFC 3986 section 4.2),
+			// otherwise it would be mistaken for a scheme name.
+			base = "./" + base
+		}
+		localRedirect(c.Writer(), req, base+"/", code)
 		return
 	}
 	localRedirect(c.Writer(), req, "../"+path.Base(url), code)
